@@ -912,19 +912,39 @@ func c12Prepare(c *core.Ctx) {
 				c.Ob("C12-R4", key+"#bound", call.Pos(), false, "the selected value is not bound to a variable")
 				continue
 			}
-			// nil test leading to a failure return
-			okNil := false
+			// every return that lies where the selected value is nil is a failure return (and there is one)
+			okNil, quiet := false, ""
 			for _, r := range ff.Flow.Returns() {
+				if !ff.Flow.Reachable(r) {
+					continue
+				}
 				for leaf, v := range ff.Flow.CondsAt(r) {
 					g := core.GuardOf(info, leaf, ff.Errs)
 					if (g.Kind == "nil" || g.Kind == "err") && core.VarOf(info, g.X) == res && v != g.Neg {
 						if k, _ := ff.ClassifyReturn(p, r); k == core.RetFailure {
 							okNil = true
+						} else {
+							quiet = p.Rel(r.Pos())
 						}
 					}
 				}
 			}
-			c.Ob("C12-R4", key+"#no-value-is-error", call.Pos(), okNil, "a nil result of the value selection (date before the first value) does not lead to an error return")
+			msgNil := "a nil result of the value selection (date before the first value) does not lead to an error return"
+			if quiet != "" {
+				msgNil = "the return at " + quiet + " lies where no table value applies to the date and is not an error: the combo keeps whatever percentage it had — a guess"
+			}
+			c.Ob("C12-R4", key+"#no-value-is-error", call.Pos(), okNil && quiet == "", msgNil)
+			// the extensions that qualify the choice are the combo's own, whole and unconditionally
+			if len(call.Args) == 3 {
+				arg := ast.Unparen(call.Args[2])
+				if v := core.VarOf(info, arg); v != nil && !v.IsField() {
+					if ds := ld.All(v); len(ds) == 1 && ds[0].RHS != nil && ds[0].N == 1 {
+						arg = ast.Unparen(ds[0].RHS)
+					}
+				}
+				c.Ob("C12-R4", key+"#own-extensions", call.Pos(), core.IsFieldOfVar(info, arg, recv, "Ext"),
+					"the table value is not chosen with the combo's own extensions (`"+types.ExprString(call.Args[2])+"`): extension-qualified values (regional rates) are passed over")
+			}
 			// percent and surcharge stores come from res
 			for _, fname := range []string{"Percent", "Surcharge"} {
 				okSrc := false
